@@ -130,9 +130,14 @@ func vfGenConf(t *rapid.T, cam vfCamDesc, simpleMotion bool) vfConf {
 		if rapid.Bool().Draw(t, "set_onediff") {
 			m.OneDiff = vfBP(rapid.Bool().Draw(t, "onediff"))
 		}
-		if rapid.IntRange(0, 3).Draw(t, "set_bounds") == 0 {
+		switch rapid.IntRange(0, 7).Draw(t, "set_bounds") {
+		case 0:
 			m.TMin = vfIP(rapid.SampledFrom([]int{2000, 29000}).Draw(t, "tmin"))
 			m.TMax = vfIP(*m.TMin + rapid.SampledFrom([]int{0, 500}).Draw(t, "tspan"))
+		case 1: // only a lower bound
+			m.TMin = vfIP(rapid.SampledFrom([]int{2000, 2800, 29000}).Draw(t, "tminonly"))
+		case 2: // only an upper bound
+			m.TMax = vfIP(rapid.SampledFrom([]int{3200, 30000}).Draw(t, "tmaxonly"))
 		}
 		c.Motion = m
 	}
